@@ -62,7 +62,7 @@ class Multidecoder:
 
             if hit.value.lower() != hit.original.lower() or hit.children:
                 # Add decoded result and check for new IOCs
-                decode_end = hit.end
+                decode_end = hit.end + offset  # absolute, like the ends it is compared with
                 self.scan_node(hit, depth_limit - 1)
             else:
                 # No need to rescan, set as context
